@@ -7,7 +7,7 @@ import ast
 from ..cfg import build_cfg, calls_in, node_calls
 from ..core import Ctx, property_info, rule, share
 from ..model import AnalysisError, FuncInfo, walk_no_nested
-from ..q import A, L, X, alternatives, call_name_of, control_deps, dep_texts, expand, expand_at, tests_like, is_self_attr, kwarg, stores, unparse
+from ..q import A, L, X, alternatives, call_name_of, control_deps, dep_texts, expand, expand_at, flows, tests_like, is_self_attr, kwarg, stores, unparse
 from .c10 import flag_liveness_and_overrides
 from .c15 import shape_validation
 
@@ -217,9 +217,10 @@ def exact_type_choice_lookup(ctx: Ctx) -> None:
     rets = [r for r in g.returns() if r.ast.value is not None and not (isinstance(r.ast.value, ast.Constant) and r.ast.value.value is None)]
     def _membership(fi, t):
         """(left alternatives, comparator text) of an `x in y` test with temporaries expanded at the test."""
-        e = expand_at(fi, t, t.ast)
+        e = t.ast
         if isinstance(e, ast.Compare) and len(e.ops) == 1 and isinstance(e.ops[0], ast.In):
-            return alternatives(ast.Module(body=[], type_ignores=[]), e.left), L(fi, e.comparators[0])
+            right = expand_at(fi, t, e.comparators[0])
+            return [leaf for leaf, _ in flows(fi, t, e.left)], L(fi, right)
         return None
 
     member = [(t, _membership(fp, t)) for t in g.nodes if t.kind == "test"]
